@@ -12,7 +12,9 @@
 use crate::{error::PacketError, Enr};
 use aes::cipher::{generic_array::GenericArray, KeyIvInit, StreamCipher};
 
-type Aes128Ctr64BE = ctr::Ctr64BE<aes::Aes128>;
+// The wire specification masks the header with plain AES-CTR: the whole 16-byte IV is the
+// initial big-endian counter block, so a carry propagates into the upper 64 bits.
+type Aes128Ctr = ctr::Ctr128BE<aes::Aes128>;
 
 use alloy_rlp::Decodable;
 use enr::NodeId;
@@ -423,7 +425,7 @@ impl Packet {
         let mut key = GenericArray::clone_from_slice(&dst_id.raw()[..16]);
         let mut nonce = GenericArray::clone_from_slice(&self.iv.to_be_bytes());
 
-        let mut cipher = Aes128Ctr64BE::new(&key, &nonce);
+        let mut cipher = Aes128Ctr::new(&key, &nonce);
         cipher.apply_keystream(&mut header_bytes);
         key.zeroize();
         nonce.zeroize();
@@ -455,7 +457,7 @@ impl Packet {
          */
         let key = GenericArray::clone_from_slice(&src_id.raw()[..16]);
         let nonce = GenericArray::clone_from_slice(&iv);
-        let mut cipher = Aes128Ctr64BE::new(&key, &nonce);
+        let mut cipher = Aes128Ctr::new(&key, &nonce);
 
         // Take the static header content
         let mut static_header = data[IV_LENGTH..IV_LENGTH + STATIC_HEADER_LENGTH].to_vec();
